@@ -241,3 +241,40 @@ CONTRACTS['HDF5DataWrapper.__init__'] = dict(
     setup=["old_mapping_K0 = mapping['K0']", "old_mapping_K1 = mapping['K1']", 'from_idx_in = from_idx', 'to_idx_in = to_idx'],
     ensures=[])
 OPQ_MODELS['path'] = {'__isinstance__': {}, '__truthy__': True}
+
+# ---------------------------------------------------------------------------------------------- window access, dispatch (C11, C13)
+CONTRACTS['SourceDataWrapper.__getitem__'] = dict(
+    props=['C11', 'C13', 'C08'], self_class='SourceDataWrapper', self_fields=dict(SW_FIELDS, _mapping=M2), params={'item': 'oneof[const:"K0",const:"K1",const:"nope"]'},
+    returns='opq:ndarray',
+    raises={'ValueError': "item == 'nope' or source_missing(self._data_source, self._mapping[item])"},
+    ensures=[('rows-of-the-window-of-the-mapped-dataset', 'result == self._data_source[self._mapping[item]][self._from_idx:self._to_idx]')])
+CONTRACTS['FrameItem.known_channel_dtypes_mapping'] = dict(
+    props=['C08', 'C11'], kind='get',
+    self_fields={'channels': {'cls': 'Attribute', 'fields': {'_value': {'list': [{'cls': 'ChannelItem', 'fields': {'name': 'const:"A"', '_cast_dtype': 'oneof[none,opq:dtype]'}},
+                                                                              {'cls': 'ChannelItem', 'fields': {'name': 'const:"B"', '_cast_dtype': 'oneof[none,opq:dtype]'}}]}}}},
+    params={}, returns='dict{}',
+    ensures=[('only-channels-with-a-cast-dtype-and-each-with-its-own',
+              "len(result) == (0 if self.channels._value[0]._cast_dtype is None else 1) + (0 if self.channels._value[1]._cast_dtype is None else 1) and "
+              "implies(self.channels._value[1]._cast_dtype is not None, result['B'] is self.channels._value[1]._cast_dtype) and "
+              "implies(self.channels._value[0]._cast_dtype is not None, result['A'] is self.channels._value[0]._cast_dtype)")])
+CONTRACTS['FrameItem.setup_from_data'] = dict(
+    props=['C08', 'C13', 'C12'],
+    self_fields={'name': 'str', 'channels': {'cls': 'Attribute', 'fields': {'_value': 'oneof[none,list[obj:SetupChT]*0,list[obj:SetupChT]*2]'}}},
+    params={'data': {'cls': 'SourceDataWrapper', 'fields': {}}}, returns='none',
+    ghost={'setup_calls': ('int', '0'), 'frame_params_done': ('bool', 'False')},
+    stubs={'set_dimension_and_repr_code_from_data': dict(returns='none', raises=True, ghost_set={'setup_calls': 'setup_calls + 1'}),
+           '_setup_frame_params_from_data': dict(returns='none', raises=True, ghost_set={'frame_params_done': 'True'})},
+    raises={'RuntimeError': 'self.channels._value is None or len(self.channels._value) == 0'}, may_raise=['StubException'],
+    ensures=[('every-listed-channel-is-set-up-from-the-data-then-the-frame', 'setup_calls == 2 and frame_params_done')])
+MODELS['SetupChT'] = {'cls': 'ChannelItem', 'fields': {'name': 'str'}}
+
+for _nm, _src, _cls in (('dict', 'dict{A:opq:arr}', 'DictDataWrapper'), ('structured-array', 'opq:sarray', 'NumpyDataWrapper')):
+    CONTRACTS[f'SourceDataWrapper.make_wrapper[{_nm}]'] = dict(
+        target='SourceDataWrapper.make_wrapper', props=['C11'], self_is_class=True, self_class='SourceDataWrapper',
+        params={'source': _src, 'mapping': 'opq:mapping', 'kwargs': {'from_idx': 'int', 'to_idx': 'int?', 'known_dtypes': 'opq:known'}},
+        returns={'cls': _cls, 'fields': {}},
+        stubs={'__init__': dict(returns='none', raises=True, capture=True)}, may_raise=['StubException'],
+        ensures=[('wrapper-kind-follows-the-kind-of-the-source', f'isinstance(result, {_cls})'),
+                 ('source-mapping-window-and-dtypes-forwarded-unchanged',
+                  "stub_call_init['from_idx'] == kwargs['from_idx'] and stub_call_init['mapping'] is mapping and stub_call_init['known_dtypes'] is kwargs['known_dtypes'] and "
+                  "(stub_call_init['to_idx'] == kwargs['to_idx'] if kwargs['to_idx'] is not None else stub_call_init['to_idx'] is None)")])
